@@ -148,7 +148,7 @@ func Run(h History, opt Options) *Outcome {
 		if step.State == memnet.Closed && !md.Closed {
 			return o.fail(opt.Prefix+"/"+msg.K+"/dropped", "%s: the server closed the connection (expected replies %s)", where, model.Exps(exp))
 		}
-		if md.Closed && step.State != memnet.Closed {
+		if md.Closed && step.State != memnet.Closed && !md.SrvClosing {
 			return o.fail(opt.Prefix+"/"+msg.K+"/not-closed", "%s: connection still open after Terminate", where)
 		}
 		if !opt.SkipEvents {
